@@ -1226,6 +1226,23 @@ class World:
                         d.keys, d.vals, d.n = nk, nv, z3.simplify(d.n - 1)
                     return val
                 return VFunc("dict." + name, getpop)
+            if name == "setdefault":
+                def setdefault(ex_, a, k):
+                    key = a[0]
+                    dflt = a[1] if len(a) > 1 else VNone()
+                    kb = ex_.box(key)
+                    j = ex_.fresh("j_setdefault", I)
+                    same = lambda idx: w.key_same(ex_, z3.Select(d.keys, idx), key, kb)
+                    exists = z3.And(j >= 0, j < d.n, same(j))
+                    none = ex_.forall(0, d.n, lambda i: z3.Not(same(i)))
+                    if ex_.choose([exists, none]) == 0:
+                        return VObj(z3.Select(d.vals, j))
+                    w.ext.mutated(ex_, d, "setdefault")
+                    d.keys = z3.Store(d.keys, d.n, kb)
+                    d.vals = z3.Store(d.vals, d.n, ex_.box(dflt))
+                    d.n = z3.simplify(d.n + 1)
+                    return dflt
+                return VFunc("dict.setdefault", setdefault)
             if name == "clear":
                 def clear(ex_, a, k):
                     w.ext.mutated(ex_, d, "clear")
